@@ -4,7 +4,9 @@ import json, os, re, shutil, subprocess, sys, time, hashlib
 
 ROOT = os.path.dirname(os.path.dirname(os.path.abspath(__file__)))
 WORK = os.path.join(ROOT, ".work")
-HARNESS = os.path.join(ROOT, "harness")
+# VERIF_HARNESS_DIR: a scratch copy of harness/ whose path dependencies point at a scratch worktree of the
+# repository (used only to evaluate seeded changes without touching /repo; registered checks never set it)
+HARNESS = os.environ.get("VERIF_HARNESS_DIR") or os.path.join(ROOT, "harness")
 BIN = os.path.join(HARNESS, "target", "debug")
 SPEC = os.path.join(ROOT, "spec")
 TLA_CP = "/opt/veriftools/tla/tla2tools.jar:/opt/veriftools/tla/CommunityModules-deps.jar"
